@@ -93,7 +93,11 @@ func rewriteLSTransport(src string) ([]byte, error) {
 		if !ok || fd.Recv == nil || len(fd.Recv.List) != 1 {
 			continue
 		}
-		if id, ok := fd.Recv.List[0].Type.(*ast.Ident); ok && id.Name == "transport" {
+		rt := fd.Recv.List[0].Type
+		if st, ok := rt.(*ast.StarExpr); ok { // a pointer receiver is the same seam
+			rt = st.X
+		}
+		if id, ok := rt.(*ast.Ident); ok && id.Name == "transport" {
 			found[fd.Name.Name] = true
 		}
 	}
